@@ -53,9 +53,15 @@ func baseScript(r *drv.Rng) []drv.SStep {
 	for i := 1; i <= n; i++ {
 		mk(drv.OpSpec{NI: 1, Kind: "ADD", T: "nh", Key: uint64(i)})
 	}
+	// several groups and entries per table, so that a Get can be abandoned inside every table's loop
 	mk(drv.OpSpec{NI: 1, Kind: "ADD", T: "nhg", Key: 1, NHs: [][2]uint64{{1, 1}, {2, 1}}})
+	mk(drv.OpSpec{NI: 1, Kind: "ADD", T: "nhg", Key: 3, NHs: [][2]uint64{{1, 1}}})
+	mk(drv.OpSpec{NI: 1, Kind: "ADD", T: "nhg", Key: 4, NHs: [][2]uint64{{2, 2}}})
 	mk(drv.OpSpec{NI: 1, Kind: "ADD", T: "v4", Key: 1, NHG: 1})
+	mk(drv.OpSpec{NI: 1, Kind: "ADD", T: "v4", Key: 3, NHG: 3})
 	mk(drv.OpSpec{NI: 2, Kind: "ADD", T: "v4", Key: 2, NHG: 1, NHGN: 1})
+	mk(drv.OpSpec{NI: 1, Kind: "ADD", T: "v6", Key: 2, NHG: 4})
+	mk(drv.OpSpec{NI: 1, Kind: "ADD", T: "mpls", Key: 200, NHG: 4})
 	if r.Chance(1, 2) {
 		mk(drv.OpSpec{NI: 1, Kind: "ADD", T: "v6", Key: 1, NHG: 2}) // held: group 2 never arrives
 	}
@@ -72,14 +78,30 @@ func genC10(r *drv.Rng, base []drv.SStep, cut int, mode string) c10Case {
 	c := c10Case{SCase: drv.SCase{VRFs: []int{2, 3}}}
 	c.Steps = append(c.Steps, base[:cut]...)
 	ack := base[1].Ack // every live session must use the same parameters
-	if mode == "sendfail" && cut < 2 {
+	if (mode == "sendfail" || mode == "sendfailbatch") && cut < 2 {
 		mode = "abort" // a transport failure is simulated on a response; an un-negotiated session has none coming
 	}
 	fault := func(mode string, s int) {
 		c.Faults = append(c.Faults, len(c.Steps))
 		switch mode {
 		case "getcut":
-			c.Steps = append(c.Steps, drv.SStep{K: "getcut", Cut: r.Intn(4), Get: &drv.GetSpec{NI: drv.Pick(r, "all", "name"), Name: 1, AFT: "ALL"}})
+			c.Steps = append(c.Steps, drv.SStep{K: "getcut", Cut: r.Intn(12), Stall: drv.Pick(r, 0, 0, 25), Get: &drv.GetSpec{NI: drv.Pick(r, "all", "name"), Name: 1, AFT: drv.Pick(r, "ALL", "ALL", "NHG", "IPV4", "NH")}})
+		case "sendfailbatch":
+			// the transport fails while a request of several operations is being answered
+			k := 2 + r.Intn(4)
+			ops := []drv.OpSpec{}
+			var el *drv.U128
+			for _, st := range c.Steps {
+				if st.K == "elect" && st.S == s {
+					e := *st.ID
+					el = &e
+				}
+			}
+			for j := 0; j < k; j++ {
+				probeSeq++
+				ops = append(ops, drv.OpSpec{ID: 1<<52 + probeSeq, NI: 1, Kind: drv.Pick(r, "ADD", "ADD", "DELETE"), T: "nh", Key: uint64(5 + r.Intn(3)), Elec: el})
+			}
+			c.Steps = append(c.Steps, drv.SStep{K: "sendfailbatch", S: s, Ops: ops, Cut: r.Intn(k)})
 		default:
 			c.Steps = append(c.Steps, drv.SStep{K: mode, S: s})
 		}
@@ -114,8 +136,8 @@ func genC10(r *drv.Rng, base []drv.SStep, cut int, mode string) c10Case {
 					}
 				}
 			}
-			m := drv.Pick(r, "close", "abort", "sendfail")
-			if m == "sendfail" && !negotiated {
+			m := drv.Pick(r, "close", "abort", "sendfail", "sendfailbatch")
+			if (m == "sendfail" || m == "sendfailbatch") && !negotiated {
 				m = "abort"
 			}
 			fault(m, s)
@@ -133,6 +155,13 @@ func oracleC10(c c10Case, obs []drv.SObs, snaps []string) string {
 	for i, st := range c.Steps {
 		if obs[i].Hang != "" {
 			return fmt.Sprintf("step %d (%s): %s", i, st.K, obs[i].Hang)
+		}
+		if st.K == "sendfailbatch" {
+			// the operations of the interrupted request were received before the client went away: they may apply
+			if obs[i].End == nil || obs[i].End.Code.String() == "OK" {
+				return fmt.Sprintf("step %d: the transport failed while a request was being answered but the RPC did not end with an error", i)
+			}
+			continue
 		}
 		if isFault[i] && snaps[i] != snaps[i+1] {
 			return fmt.Sprintf("step %d: the client going away (%s) changed installed entries, held operations or the election state:\n--- before\n%s--- after\n%s", i, st.K, snaps[i], snaps[i+1])
@@ -161,6 +190,7 @@ func oracleC10(c c10Case, obs []drv.SObs, snaps []string) string {
 
 func runC10(args []string) error {
 	f := drv.NewFlags("c10")
+	workerFlag := f.FS.Bool("worker", false, "run the cases of -replay in this process")
 	if err := f.Parse(args); err != nil {
 		return err
 	}
@@ -180,70 +210,120 @@ func runC10(args []string) error {
 					cases = append(cases, genC10(r, base, cut, mode))
 				}
 			}
-			for k := 0; k < 6; k++ {
+			for k := 0; k < 4; k++ {
+				c := genC10(r, base, len(base), "sendfailbatch")
+				c.Steps[c.Faults[0]].Cut = k % len(c.Steps[c.Faults[0]].Ops)
+				cases = append(cases, c)
+			}
+			for k := 0; k < 14; k++ {
 				c := genC10(r, base, len(base), "getcut")
 				c.Steps[c.Faults[0]].Cut = k
+				c.Steps[c.Faults[0]].Get = &drv.GetSpec{NI: "all", AFT: "ALL"}
+				c.Steps[c.Faults[0]].Stall = []int{0, 25}[k%2]
 				cases = append(cases, c)
 			}
 		}
 	}
-	rep := drv.Report{Property: "C10", Seed: *f.Seed, Shard: drv.ShardSize, Stats: map[string]int{}, Cases: len(cases),
-		Rule: "every prefix of base Modify scripts (negotiate, announce, program incl. held operations, re-announce) cut by each of {half-close, cancellation, transport failure}; a Get abandoned after each k in 0..5 responses; followed by a probe session (negotiate, win, ADD, Get, Flush) and by random sequences of 0-2 further faults each followed by a probe; non-trivial = the fault hit a session that had programmed or held at least one operation, or a Get with at least two entries; distinct by (script, cut, mode) text"}
-	var coq []string
-	distinct := map[string]bool{}
-	for i, c := range cases {
+	worker := *workerFlag
+	runOne := func(i int) drv.IsoResult {
+		c := cases[i]
+		res := drv.IsoResult{Stats: map[string]int{}}
 		x, err := drv.NewSRun(c.SCase)
 		if err != nil {
-			return err
+			res.Problem = err.Error()
+			return res
 		}
 		obs := []drv.SObs{}
 		snaps := []string{x.Snapshot()}
-		for _, st := range c.Steps {
+		trunc, truncFinal := -1, ""
+		for j, st := range c.Steps {
+			if st.K == "sendfailbatch" && trunc < 0 {
+				// the model is compared up to here: how many operations of the interrupted request are applied
+				// before the server notices the failure depends on goroutine timing
+				trunc, truncFinal = j, x.FinalCoq()
+			}
 			obs = append(obs, x.Step(st))
 			snaps = append(snaps, x.Snapshot())
 		}
-		if p := oracleC10(c, obs, snaps); p != "" {
-			v := drv.Verdict{Case: i, Problem: p}
-			if strings.Contains(p, "HANG") {
+		res.Problem = oracleC10(c, obs, snaps)
+		hs, os := []string{}, []string{}
+		programmed := 0
+		for j, st := range c.Steps {
+			if trunc < 0 || j < trunc {
+				hs = append(hs, st.Coq(obs[j]))
+				os = append(os, obs[j].Coq(st))
+			}
+			res.Stats["step_"+st.K]++
+			if st.K == "ops" && len(c.Faults) > 0 && j < c.Faults[0] {
+				programmed++
+			}
+			if st.K == "getcut" {
+				res.Stats[fmt.Sprintf("getcut_k%02d_received%02d", st.Cut, len(obs[j].GetItems))]++
+			}
+			res.Text = append(res.Text, st.Coq(obs[j])+" => "+obs[j].Text(st))
+		}
+		res.NonTriv = programmed > 0
+		res.Key = strings.Join(hs, ";") + fmt.Sprint(c.Faults)
+		vr := []uint64{}
+		for _, v := range c.VRFs {
+			vr = append(vr, uint64(v))
+		}
+		final := truncFinal
+		if trunc < 0 {
+			final = x.FinalCoq()
+		}
+		res.Coq = fmt.Sprintf("mk_scase %v %s\n %s\n %s\n (%s)", c.NoFwd, drv.CoqNs(vr), drv.CoqList(hs), drv.CoqList(os), final)
+		x.Finish()
+		return res
+	}
+	if worker {
+		return drv.IsoWorker(*f.Out, len(cases), runOne)
+	}
+	if err := drv.WriteJSON(*f.Out+"/cases.json", cases); err != nil {
+		return err
+	}
+	results, err := drv.IsoParent("c10", *f.Out+"/cases.json", *f.Out, len(cases), func(i int) string {
+		if len(cases[i].Faults) > 0 {
+			return "fault " + cases[i].Steps[cases[i].Faults[0]].K
+		}
+		return "case"
+	})
+	if err != nil {
+		return err
+	}
+	rep := drv.Report{Property: "C10", Seed: *f.Seed, Shard: drv.ShardSize, Stats: map[string]int{}, Cases: len(cases),
+		Rule: "every prefix of base Modify scripts (negotiate, announce, program several entries per table incl. held operations, re-announce) cut by each of {half-close, cancellation, transport failure on a response}; the transport failing after each j of the k responses of a multi-operation request; a Get abandoned after each k responses (failing at once or after a stall); followed by a probe session (negotiate, win, ADD, Get, Flush) and by random sequences of 0-2 further faults each followed by a probe; every case in a worker process; non-trivial = the fault hit a session that had programmed or held at least one operation; distinct by (script, cut, mode) text"}
+	var coq []string
+	distinct := map[string]bool{}
+	for i := range cases {
+		r, ok := results[i]
+		if !ok {
+			r = drv.IsoResult{Problem: "no result recorded"}
+		}
+		if r.Problem != "" {
+			v := drv.Verdict{Case: i, Problem: r.Problem}
+			if strings.Contains(r.Problem, "HANG") {
 				rep.Hangs = append(rep.Hangs, v)
 			} else {
 				rep.Violations = append(rep.Violations, v)
 			}
 		}
-		hs, os := []string{}, []string{}
-		programmed := 0
-		for j, st := range c.Steps {
-			hs = append(hs, st.Coq(obs[j]))
-			os = append(os, obs[j].Coq(st))
-			rep.Stats["step_"+st.K]++
-			if st.K == "ops" && j < c.Faults[0] {
-				programmed++
-			}
-			if st.K == "getcut" {
-				rep.Stats[fmt.Sprintf("getcut_k%d_received%d", st.Cut, len(obs[j].GetItems))]++
-			}
+		for k, v := range r.Stats {
+			rep.Stats[k] += v
 		}
-		if programmed > 0 {
-			distinct[strings.Join(hs, ";")] = true
+		if r.Coq != "" {
+			coq = append(coq, r.Coq)
+		} else {
+			coq = append(coq, "mk_scase false [] [] [] (mk_sfinal (state_obs (srib (srv_init false []))) [] None None)")
 		}
-		vr := []uint64{}
-		for _, v := range c.VRFs {
-			vr = append(vr, uint64(v))
+		if r.NonTriv {
+			distinct[r.Key] = true
 		}
-		coq = append(coq, fmt.Sprintf("mk_scase %v %s\n %s\n %s\n (%s)", c.NoFwd, drv.CoqNs(vr), drv.CoqList(hs), drv.CoqList(os), x.FinalCoq()))
 		if i < 2 {
-			txt := []string{}
-			for j, st := range c.Steps {
-				txt = append(txt, st.Coq(obs[j])+" => "+obs[j].Text(st))
-			}
-			rep.Samples = append(rep.Samples, txt)
+			rep.Samples = append(rep.Samples, r.Text)
 		}
-		x.Finish()
 	}
 	rep.Nontrivial = len(distinct)
-	if err := drv.WriteJSON(*f.Out+"/cases.json", cases); err != nil {
-		return err
-	}
 	req := "From Coq Require Import List NArith Bool.\nFrom GV.Base Require Import Op U128.\nFrom GV.Rib Require Import Model Run.\nFrom GV.Server Require Import Model Obs Inst.\nImport ListNotations.\nOpen Scope N_scope."
 	if err := drv.WriteCasesV(*f.Out, req, "scase", "smismatches", coq); err != nil {
 		return err
